@@ -51,4 +51,39 @@ AllowedUntyped(op, lam) ==
         mayRefuse == Trigger(body) \/ (op = "Where" /\ body.k \notin {"cmp", "boolop"})
     IN IF mayRefuse THEN {"unchanged", "ValueError"} ELSE {"unchanged"}
 
+---------------------------------------------------------------------------
+(* Part 2 (C07): typed call sites are normalised to full positional form.   *)
+(* A case fixes a signature [n, r, dk] (n parameters a, b, c, .., the first *)
+(* r required, defaults of kind dk), and a call shape [npos, kws].          *)
+(* Rendering convention shared with the harness:                            *)
+(*   i-th positional value = 10 + i, keyword value for parameter j = 30 + j,*)
+(*   default of parameter j = 20 + j (int) or "d<j>" (str).                 *)
+PNames == <<"a", "b", "c", "d">>
+PosVal(i) == IntC(10 + i)
+KwVal(j)  == IntC(30 + j)
+DefVal(sig, j) == IF sig.dk = "int" THEN IntC(20 + j)
+                  ELSE StrC(CASE j = 1 -> "d1" [] j = 2 -> "d2" [] j = 3 -> "d3" [] OTHER -> "d4")
+InSeq(x, sq) == \E i \in 1..Len(sq) : sq[i] = x
+
+(* Python's own binding (inspect.Signature.bind + apply_defaults) *)
+Missing(sig, sh) == \E j \in (sh.npos + 1)..sig.n : j <= sig.r /\ ~InSeq(PNames[j], sh.kws)
+Normalized(sig, sh) ==
+    [j \in 1..sig.n |->
+        IF j <= sh.npos THEN PosVal(j)
+        ELSE IF InSeq(PNames[j], sh.kws) THEN KwVal(j)
+        ELSE DefVal(sig, j)]
+
+(* all calls of method / function mname in a term *)
+RECURSIVE CallsOf(_, _)
+CallsOf(t, mname) ==
+    (IF IsMethOf(t, mname) \/ IsCallOf(t, mname) THEN {t} ELSE {})
+      \cup UNION {CallsOf(t.a[i], mname) : i \in 1..Len(t.a)}
+
+(* the library's own operators inside lambdas keep exactly the user's arguments *)
+RECURSIVE OperatorsUntouched(_)
+OperatorsUntouched(t) ==
+    /\ (IsMeth(t) /\ t.a[1].s \in {"Select", "SelectMany", "Where"}) => (t.n = 1 /\ t.p = <<>>)
+    /\ (IsMeth(t) /\ t.a[1].s \in {"First", "Count"}) => (t.n = 0 /\ t.p = <<>>)
+    /\ \A i \in 1..Len(t.a) : OperatorsUntouched(t.a[i])
+
 =============================================================================
